@@ -691,9 +691,9 @@ def rvalue_places(rv):
     """places read by an rvalue"""
     res = []
     k = rv[0]
-    if k in ("ref", "ptr"):
+    if k == "ref":
         res.append(rv[2])
-    elif k in ("discr", "cfd"):
+    elif k in ("discr", "cfd", "ptr"):
         res.append(rv[1])
     for op in _rvalue_operands(rv):
         if op[0] in ("c", "m"):
@@ -755,7 +755,18 @@ def origin_of_operand(body, op, through_calls=True, max_steps=4000, stop_calls=(
     def push_place(pl):
         for f in place_fields(pl):
             o.fields.add(f)
-        work.append(pl[0])
+        # field selection directly on the local (before any deref): `_t.1`, `(_e as Some).0`
+        sel = None
+        for p in pl[1:]:
+            if p == "*":
+                break
+            if isinstance(p, list) and p[0] == "f":
+                sel = p[1]
+                break
+            if isinstance(p, list) and p[0] == "v":
+                continue
+            break
+        work.append((pl[0], sel))
 
     def push_op(op):
         if op[0] in ("c", "m"):
@@ -767,10 +778,11 @@ def origin_of_operand(body, op, through_calls=True, max_steps=4000, stop_calls=(
     defs = body.defs()
     steps = 0
     while work:
-        l = work.popleft()
-        if l in seen:
+        item = work.popleft()
+        if item in seen:
             continue
-        seen.add(l)
+        seen.add(item)
+        l, sel = item
         steps += 1
         if steps > max_steps:
             o.unknown = True
@@ -787,8 +799,15 @@ def origin_of_operand(body, op, through_calls=True, max_steps=4000, stop_calls=(
             if d[0] == "assign":
                 rv = d[3]
                 k = rv[0]
-                if k in ("ref", "ptr"):
+                if len(d) > 4 and sel is not None:
+                    # projection assignment `_l.f = ...`: only relevant if it writes the selected field
+                    wf = [p[1] for p in d[4][1:] if isinstance(p, list) and p[0] == "f"]
+                    if wf and wf[0] != sel:
+                        continue
+                if k == "ref":
                     push_place(rv[2])
+                elif k == "ptr":
+                    push_place(rv[1])
                 elif k in ("cfd", "discr"):
                     push_place(rv[1])
                     if k == "discr":
@@ -807,8 +826,12 @@ def origin_of_operand(body, op, through_calls=True, max_steps=4000, stop_calls=(
                 elif k == "agg":
                     if rv[3]:
                         o.aggs.append(rv[3])
-                    for x in rv[2]:
-                        push_op(x)
+                    ops_ = rv[2]
+                    if sel is not None and len(d) <= 4 and rv[1] in ("tuple", "adt", "closure", "coroutine") and sel < len(ops_):
+                        push_op(ops_[sel])
+                    else:
+                        for x in ops_:
+                            push_op(x)
                 else:
                     o.unknown = True
             else:
@@ -936,9 +959,9 @@ def lock_identity(body, call):
         d = ds[0]
         if d[0] == "assign":
             rv = d[3]
-            if rv[0] in ("ref", "ptr"):
+            if rv[0] == "ref":
                 cur = rv[2]
-            elif rv[0] in ("cfd",):
+            elif rv[0] in ("cfd", "ptr"):
                 cur = rv[1]
             elif rv[0] == "use" and rv[1][0] in ("c", "m"):
                 cur = rv[1][1]
@@ -1163,88 +1186,86 @@ class Cmp:
     def where(self):
         return "%s:%d" % (self.body.file, self.line)
 
-    def edges(self):
-        """{successor block: frozenset(relation of lhs vs rhs)} at the switch that consumes
-        the comparison result, or None if it is not consumed by a switch we understand"""
+    def switches(self):
+        """[(switch block, {successor: frozenset(relation lhs vs rhs)})] for every switch whose
+        discriminant is this comparison's result (through moves and `!`, anywhere in the body)"""
         b = self.body
-        holders = {self.dest: (False,)}  # local -> negated?
         neg = {self.dest: False}
-        start = self.bb if self.kind == "bin" else (self.call.target if self.call else None)
-        if start is None:
-            return None
-        cur = start
-        seen = set()
-        first = True
-        while cur is not None and cur not in seen and len(seen) < 8:
-            seen.add(cur)
-            bl = b.blocks[cur]
-            discr_of = {}
-            for st in bl["s"]:
-                if st[0] != "=":
-                    continue
-                lhs, rv = st[1], st[2]
-                if len(lhs) != 1:
+        isdiscr = set()
+        changed = True
+        while changed:
+            changed = False
+            for i, j, lhs, rv, _ in b.assigns():
+                if len(lhs) != 1 or lhs[0] in neg:
                     continue
                 if rv[0] == "use" and rv[1][0] in ("c", "m") and len(rv[1][1]) == 1 and rv[1][1][0] in neg:
                     neg[lhs[0]] = neg[rv[1][1][0]]
-                elif rv[0] == "un" and rv[1] == "Not" and rv[2][0] in ("c", "m") and rv[2][1][0] in neg:
+                    changed = True
+                elif rv[0] == "un" and rv[1] == "Not" and rv[2][0] in ("c", "m") and len(rv[2][1]) == 1 and rv[2][1][0] in neg:
                     neg[lhs[0]] = not neg[rv[2][1][0]]
-                elif rv[0] == "discr" and rv[1][0] in neg and self.kind == "ord":
-                    discr_of[lhs[0]] = True
+                    changed = True
+                elif rv[0] == "discr" and len(rv[1]) == 1 and rv[1][0] in neg and self.kind == "ord":
                     neg[lhs[0]] = False
-            t = bl["t"]
-            if t[0] == "switch" and t[1][0] in ("c", "m") and t[1][1][0] in neg:
-                l = t[1][1][0]
-                res = {}
-                if self.kind == "ord":
-                    m = {"0": {"eq"}, "1": {"gt"}, "255": {"lt"}, "-1": {"lt"},
-                         "18446744073709551615": {"lt"}, "340282366920938463463374607431768211455": {"lt"}}
-                    used = set()
-                    for v, x in t[2]:
-                        r = m.get(v)
-                        if r is None:
-                            return None
-                        res[x] = frozenset(res.get(x, frozenset()) | r)
-                        used |= r
-                    rest = ALLREL - used
-                    if rest:
-                        res[t[3]] = frozenset(res.get(t[3], frozenset()) | rest)
-                    return res
+                    isdiscr.add(lhs[0])
+                    changed = True
+        # a result local with more than one definition (e.g. `a && b` lowered to a phi-like temp) is not ours alone
+        defs = b.defs()
+        res = []
+        for blk in sorted(b.live):
+            t = b.blocks[blk]["t"]
+            if t[0] != "switch" or t[1][0] not in ("c", "m") or len(t[1][1]) != 1:
+                continue
+            l = t[1][1][0]
+            if l not in neg:
+                continue
+            if self.kind == "ord" and l not in isdiscr:
+                continue
+            if len(defs.get(l, ())) > 1:
+                continue
+            e = {}
+            if self.kind == "ord":
+                m = {"0": {"eq"}, "1": {"gt"}, "255": {"lt"}, "-1": {"lt"},
+                     "18446744073709551615": {"lt"}, "340282366920938463463374607431768211455": {"lt"}}
+                used = set()
+                bad = False
+                for v, x in t[2]:
+                    r = m.get(v)
+                    if r is None:
+                        bad = True
+                        break
+                    e[x] = frozenset(e.get(x, frozenset()) | r)
+                    used |= r
+                if bad:
+                    continue
+                rest = ALLREL - used
+                if rest:
+                    e[t[3]] = frozenset(e.get(t[3], frozenset()) | rest)
+            else:
                 base = frozenset(REL[self.op])
                 tr = (ALLREL - base) if neg[l] else base
                 fl = ALLREL - tr
                 for v, x in t[2]:
                     r = fl if v == "0" else tr
-                    res[x] = frozenset(res.get(x, frozenset()) | r)
+                    e[x] = frozenset(e.get(x, frozenset()) | r)
                 oth = tr if any(v == "0" for v, _ in t[2]) else fl
-                res[t[3]] = frozenset(res.get(t[3], frozenset()) | oth)
-                return res
-            if t[0] == "call":
-                # `matches!`/`==` on Ordering: <Ordering as PartialEq>::eq(&ord, &Ordering::X) -- not modelled
-                return None
-            if t[0] in ("goto", "falseedge", "falseunwind", "drop"):
-                cur = b.succ[cur][0] if b.succ[cur] else None
-                continue
-            return None
-        return None
+                e[t[3]] = frozenset(e.get(t[3], frozenset()) | oth)
+            res.append((blk, e))
+        return res
+
+    def edges(self):
+        sw = self.switches()
+        return sw[0][1] if sw else None
 
     def condition_to_reach(self, target):
         """relation (lhs vs rhs) under which block `target` can be reached, provided every path
-        entry -> target passes this comparison's switch; None if the comparison does not control it"""
-        e = self.edges()
-        if e is None:
-            return None
-        b = self.body
-        sw = None
-        # the switch block is the common predecessor of the edge targets
-        for blk in range(len(b.blocks)):
-            if b.blocks[blk]["t"][0] == "switch" and set(e.keys()) <= set(b.succ[blk]) and blk in b.reachable_from([self.bb]):
-                # nearest one
-                sw = blk
-                break
-        if sw is None:
-            return None
-        return edge_condition(b, sw, e, target)
+        entry -> target passes a switch on this comparison's result; None if the comparison
+        does not control it"""
+        res = None
+        for sw, e in self.switches():
+            c = edge_condition(self.body, sw, e, target)
+            if c is not None:
+                res = c if res is None else (res & c)
+        return res
 
 
 def edge_condition(body, sw, edges, target):
@@ -1581,7 +1602,7 @@ def feasible_reach(body, starts, avoid=()):
             if rv[0] == "ref" and rv[1]:
                 fd.pop(rv[2][0], None)
             if rv[0] == "ptr":
-                fd.pop(rv[2][0], None)
+                fd.pop(rv[1][0], None)
         t = bl["t"]
         succ = body.succ[b]
         if t[0] == "switch" and t[1][0] in ("c", "m") and len(t[1][1]) == 1 and t[1][1][0] in discr:
